@@ -391,7 +391,8 @@ class DExplore(Job):
         self.bounds = dict(config=cfg, config_args={k2: repr(v) for k2, v in self.configs[cfg].items()},
                            canonical_prefix_lengths="%d..%d" % (plo, phi - 1), free_steps=k,
                            free_step_kinds="all enabled" if self.allowed is None else sorted(self.allowed),
-                           then="fair completion (every pending connect completes, all bytes and control messages delivered, zero-delay timers run)")
+                           then="fair completion (every pending connect completes, all bytes and control messages delivered, zero-delay timers run), oracle, then the rest of "
+                                "the canonical run as far as still enabled (C17: stop() on every side), fair completion, oracle")
         self.must_reach = ("nt:explored",)
 
     def violations(self, sim, when):
@@ -422,8 +423,19 @@ class DExplore(Job):
 
     def final_phase(self, sim):
         """hook: something the property demands from EVERY state the exploration ends in (run after the settled oracle passed);
-        returns True if it did anything, the run is then settled and judged again"""
-        return False
+        returns True if it did anything, the run is then settled and judged again.
+        Default = honest completion: the rest of the canonical run (the application's remaining opens/listens/writes/closes and the
+        environment steps recorded with them) is carried out as far as each step is still enabled in the state reached."""
+        rest = getattr(sim, "_rest", None)
+        if not rest:
+            return False
+        did = False
+        for a in rest:
+            a = tuple(a)
+            if a in sim.enabled():
+                sim.do(a)
+                did = True
+        return did
 
     def scenario(self):
         canon = canonical(self.cfg, self.configs)
@@ -437,6 +449,7 @@ class DExplore(Job):
         eng().inputs["sched"] = sched
         try:
             assert replay_actions(sim, canon[:p]), "canonical prefix not replayable"
+            sim._rest = canon[p:]
             if not self._oracle(sim, "prefix"):
                 return
             for step in range(self.k):
@@ -462,6 +475,7 @@ class DExplore(Job):
         try:
             if not replay_actions(sim, canon[:inp["prefix"]]):
                 return None
+            sim._rest = canon[inp["prefix"]:]
             fails = self.violations(sim, "prefix")
             for a in inp["sched"]:
                 if fails:
